@@ -35,10 +35,11 @@ FIELDS = {
     "EvSupOp": {"data": "sup5"},
     "TDRedfield": {"data": "sup5"},
     "TDRedfieldOps": {"Km": "first3", "Lm": "tm4", "Ld": "tm4"},
+    "TDFoerster": {"data": "sup5"},
 }
 CONTEXT_CLASSES = ("SelfAdjoint", "Hamiltonian", "HamiltonianJR", "RDM")
 COMPLEX_OK = ("Operator", "SelfAdjoint", "RDM", "SuperOp", "RelTensor", "RDMEvolution", "EvSupOp")
-LIBRARY_BUILT = ("TDRedfield", "TDRedfieldOps")     # built by the open-system builder from a small aggregate, only before any context
+LIBRARY_BUILT = ("TDRedfield", "TDRedfieldOps", "TDFoerster")     # built by the open-system builder from a small aggregate, only before any context
 ALL_CLASSES = list(FIELDS)
 
 
@@ -457,7 +458,11 @@ class Runner:
                 for i in range(dim - 2):
                     agg.set_resonance_coupling(i, i + 1, float(g.integers(30, 150)))
             agg.build()
-            RT, ham = agg.get_RelaxationTensor(ta, relaxation_theory="stR", time_dependent=True, as_operators=(cls == "TDRedfieldOps"))
+            if cls == "TDFoerster":
+                # a time-dependent tensor that uses the generic 5-index transformation of RelaxationTensor
+                RT, ham = agg.get_RelaxationTensor(ta, relaxation_theory="stF", time_dependent=True)
+            else:
+                RT, ham = agg.get_RelaxationTensor(ta, relaxation_theory="stR", time_dependent=True, as_operators=(cls == "TDRedfieldOps"))
             return RT
         if cls == "EvSupOp":
             H = qr.Hamiltonian(data=numpy.diag(numpy.arange(dim, dtype=float)))
